@@ -179,7 +179,7 @@ class Run:
         return out
 
     def build_query(self, q, witness=True):
-        qdir = os.path.join(self.work, 'q_' + re.sub(r'[^A-Za-z0-9_.-]', '_', q.name))
+        qdir = os.path.join(self.work, 'q_' + re.sub(r'[^A-Za-z0-9_.-]', '_', q.name)[:80] + '_' + hashlib.sha1(q.name.encode()).hexdigest()[:8])
         os.makedirs(qdir, exist_ok=True)
         ud = dict(q.unit_defs)
         gbs = [self.goto_cc_unit(u, ud) for u in q.units]
